@@ -47,8 +47,8 @@ func scenario(idx int, wrapped *drv.Block, levels, bound int) *h.Scn {
 // only when the last of them is gone. There is no inlined counterpart with the same timing
 // (inline, nothing would wait for the other branches), so the lock-step model is the token game
 // of the graph itself, in which a sub-process scope completes when it holds no token.
-func unjoined(kind drv.Kind, n, levels, bound int) *h.Scn {
-	g := drv.NewGraph(fmt.Sprintf("c12u_%s_%d_%d", kind, n, levels))
+func unjoined(kind drv.Kind, n, levels, bound int, shared string) *h.Scn {
+	g := drv.NewGraph(fmt.Sprintf("c12u_%s_%d_%d_%s", kind, n, levels, shared))
 	s, e := g.Add(drv.Start, "start"), g.Add(drv.End, "end")
 	after := g.Add(drv.Task, "after")
 	outer := g.AddSub("sp1")
@@ -67,13 +67,28 @@ func unjoined(kind drv.Kind, n, levels, bound int) *h.Scn {
 	is := c.Add(drv.Start, inner.ID+"_start")
 	f := c.Add(kind, "F")
 	c.Link(is, f, nil)
+	// shared == "tasks": the branches end at ONE inner end event (several tokens reach the same
+	// end event); shared == "direct": the same without tasks on the branches, so that the tokens
+	// reach it at almost the same moment
+	var common *drv.Node
+	if shared != "" {
+		common = c.Add(drv.End, "bend")
+	}
 	for i := 1; i <= n; i++ {
-		t, te := c.Add(drv.Task, fmt.Sprintf("b%d", i)), c.Add(drv.End, fmt.Sprintf("bend%d", i))
+		var cond *drv.Cond
 		if kind == drv.OR {
-			c.Link(f, t, drv.Var(fmt.Sprintf("c%d", i)))
-		} else {
-			c.Link(f, t, nil)
+			cond = drv.Var(fmt.Sprintf("c%d", i))
 		}
+		if shared == "direct" {
+			c.Link(f, common, cond)
+			continue
+		}
+		t := c.Add(drv.Task, fmt.Sprintf("b%d", i))
+		te := common
+		if te == nil {
+			te = c.Add(drv.End, fmt.Sprintf("bend%d", i))
+		}
+		c.Link(f, t, cond)
 		c.Link(t, te, nil)
 	}
 	defs := g.Parse()
@@ -96,7 +111,11 @@ func unjoined(kind drv.Kind, n, levels, bound int) *h.Scn {
 		}
 		ls.Body()()
 	}
-	sc := &h.Scn{Name: fmt.Sprintf("C12/unjoined/%s/branches%d/L%d/d%d", kind, n, levels, bound), Body: body, Opts: verifrt.Options{Bound: bound, UseCache: true}}
+	name := fmt.Sprintf("C12/unjoined/%s/branches%d/L%d/d%d", kind, n, levels, bound)
+	if shared != "" {
+		name = fmt.Sprintf("C12/unjoined/%s/branches%d/shared-end-%s/L%d/d%d", kind, n, shared, levels, bound)
+	}
+	sc := &h.Scn{Name: name, Body: body, Opts: verifrt.Options{Bound: bound, UseCache: true}}
 	sc.Weight = n * n * levels * (1 + 2000*bound)
 	if bound >= 1 {
 		sc.Split = 4
@@ -147,9 +166,18 @@ func init() {
 		for _, kind := range []drv.Kind{drv.AND, drv.OR} {
 			for n := 2; n <= 3; n++ {
 				for levels := 1; levels <= 2; levels++ {
-					out = append(out, unjoined(kind, n, levels, 0))
+					out = append(out, unjoined(kind, n, levels, 0, ""))
 					if n == 2 && (levels == 1 || thorough) {
-						out = append(out, unjoined(kind, n, levels, 1))
+						out = append(out, unjoined(kind, n, levels, 1, ""))
+					}
+					for _, shared := range []string{"tasks", "direct"} {
+						out = append(out, unjoined(kind, n, levels, 0, shared))
+						if n == 2 && levels == 1 {
+							out = append(out, unjoined(kind, n, levels, 1, shared))
+						}
+						if thorough && n == 2 && levels == 1 && shared == "direct" {
+							out = append(out, unjoined(kind, n, levels, 2, shared))
+						}
 					}
 				}
 			}
